@@ -125,6 +125,27 @@ add('C10', 'TLA+ spec Mappings/GeomNum: exact clauses on integer-coordinate cell
     'epsilon-boundary behaviour are not addressed.',
     'DESIGN.md section 5 C10', TRUST + ' Mode L tolerance 2^-36 x magnitude (observed 2^-49).')
 
+add('C17', 'TLA+ spec TagCodec/Tags (transcriptions of the per-cell bit-mask encoding and decoding of named boundaries, hex '
+    'vertex permutation; tags as geometric designations): TLC model checking Decode(Encode(m)) = m over every facet '
+    'subset x every orientation-flag assignment x sub-domain subsets (pre-repair decoder refuted) + replay of the '
+    'TLC-exported meshes through the real code and real files + TLC trace validation of every round trip',
+    'TLC decides SameClass, SameVertices (bitwise), SameCells, NodesPerCell, SameTagNames, SameSubdomains, '
+    'SameBoundaryFacets, SameOrientation, UserDataUnchanged, ExportDoesNotAlterMesh on the model exhaustively for small '
+    'meshes and on every recorded round trip through in-memory meshio, gmsh 2.2/4.1, vtk, vtu, json, dict and npz for '
+    'first/second-order tri, quad, tet, hex meshes with random tag sets incl. oriented interior interfaces. Decoder '
+    'model-vs-code drift 0.',
+    'DESIGN.md section 5 C17')
+add('C18', 'TLA+ spec Surgery/Geometry/Tags (relational clauses in exact integer geometry + transcriptions of restrict/_reix, '
+    'remove_elements, +, remove_unused_nodes, remove_duplicate_nodes, to_meshtri, to_meshtet): TLC model checking over '
+    'small meshes x every cell subset x tag subsets incl. compositions (pre-repair duplicate removal refuted) + replay on '
+    'the real code + TLC trace validation of random operation sequences',
+    'TLC decides Valid, CellsAreExpectedPointSets (partition test for the simplex splits), SameMeasure, '
+    'SharedVertexStructure, CarriedTagsSameDesignation, RemovedEntitiesUntagged, IndexMapsRelateNewToOld, '
+    'OrientationPositive, OperandsUnchanged on the model and on recorded executions of restrict, remove_elements, join, '
+    'to_meshtri/to_meshtet, extrusion, scaled/translated/mirrored/morphed/oriented/trace, remove_unused/duplicate_nodes '
+    'and their compositions interleaved with refinement. One known finding (extrusion ignores the line operand cells).',
+    'DESIGN.md section 5 C18')
+
 NOT_YET = "check not built yet (implementation in progress; see DESIGN.md section 8 for the plan)"
 NA = {'C09': "no state, transitions or discrete core: ~70 closed-form derivative formulas; TLA+/TLC cannot express "
              "real differentiation except as a numeric harness with TLC as calculator (DESIGN.md section 6)"}
